@@ -533,13 +533,18 @@ declarations:
   declarations:
   - decl: Holder()
   - decl: T get() const
+  - decl: void poke()
 """
 INST_CHOICES = [None, True, False]        # the option is absent / on / off at that place
 
 
-def inst_verdict(lang, cls_opt, i0, i1):
+def inst_verdict(lang, cls_opt, i0, i1, meth=None):
     d = pipeline.load_yaml(INST_LIB)
     node = d["declarations"][0]
+    if meth is not None:
+        # the method void poke() (which does not mention T) carries a setting of its own
+        for key in (["wrap_fortran"] if lang == "fortran" else ["wrap_c", "wrap_fortran"]):
+            node["declarations"][2].setdefault("options", {})[key] = meth
     # (the Fortran wrapper calls the C wrapper: the C switch is moved together with the Fortran one)
     keys = ["wrap_fortran"] if lang == "fortran" else ["wrap_c", "wrap_fortran"]
     if cls_opt is not None:
@@ -564,9 +569,24 @@ def inst_verdict(lang, cls_opt, i0, i1):
         else:
             have = any(os.path.basename(f) == "wrap%s.h" % name for f in files)
             what = "the header wrap%s.h" % name
+        if meth is True and not want:
+            continue        # a member switched on inside a container that is off: promotion decides the container, not judged here
         if have != bool(want):
             return "instantiation %s has wrap_%s %s (its own option %r, the class's %r) but %s is %s" % (
                 name, lang, "on" if want else "off", v, cls_opt, what, "written" if have else "missing")
+        if want:
+            # the member function: its own setting if it has one, else its container's
+            want_m = meth if meth is not None else True
+            if lang == "fortran":
+                have_m = re.search(r"(?im)^\s*procedure\s*::\s*poke\s*=>\s*%s_poke\s*$" % name.lower(), ftext) is not None
+                what_m = "the type-bound procedure poke of %s" % name.lower()
+            else:
+                htext = "\n".join(t_ for f, t_ in files.items() if os.path.basename(f) == "wrap%s.h" % name)
+                have_m = re.search(r"\bTMP_%s_poke\b" % name, htext) is not None
+                what_m = "the C function TMP_%s_poke" % name
+            if have_m != bool(want_m):
+                return "method poke of %s has wrap_%s %s (its own option %r) but %s is %s" % (
+                    name, lang, "on" if want_m else "off", meth, what_m, "written" if have_m else "missing")
     return None
 
 
@@ -579,7 +599,7 @@ class InstHarness(object):
 
     def run(self, e):
         pick = []
-        for nm in ("cls", "inst0", "inst1"):
+        for nm in ("cls", "inst0", "inst1", "meth"):
             z = z3.Int("inst_" + nm)
             e.assume(z3.And(z >= 0, z < len(INST_CHOICES)))
             pick.append(INST_CHOICES[e.choose(z)])
@@ -587,7 +607,7 @@ class InstHarness(object):
         return inst_verdict(self.lang, *pick)
 
     def witness(self, what):
-        return {"kernel": "instantiations", "lang": self.lang, "class_option": self.pick[0], "instantiation_options": self.pick[1:], "what": what}
+        return {"kernel": "instantiations", "lang": self.lang, "class_option": self.pick[0], "instantiation_options": self.pick[1:3], "method_option": self.pick[3], "what": what}
 
     def judge(self, e, kind, value):
         cls = "instantiations/" + self.lang
@@ -617,7 +637,7 @@ def confirm(w):
     if w.get("kernel") == "promote":
         return confirm_promote(w)
     if w.get("kernel") == "instantiations":
-        return inst_verdict(w["lang"], w["class_option"], *w["instantiation_options"])
+        return inst_verdict(w["lang"], w["class_option"], *w["instantiation_options"], meth=w.get("method_option"))
     if w.get("kernel") == "dirs":
         try:
             return dirs_verdict(*run_main_dirs(w["library"], w["given"]))
